@@ -34,6 +34,28 @@ def features(prog):
             "nonpointwise_map_blocks": any(q[0] == "map_blocks" and q[1] in ("reverse", "plus_blocksum") for q in nodes)}
 
 
+def block_indexed_axes(before):
+    """output axes of a Slice-over-Blockwise instance whose label the Blockwise maps to ONE element per block (adjust_chunks -> 1:
+    the partial results of tensordot / matmul chunk steps) and which the slice leaves whole"""
+    from dask_array._blockwise import Blockwise
+    from dask_array.slicing import SliceSlicesIntegers
+    if not (isinstance(before, SliceSlicesIntegers) and type(before.array).__name__ == "Blockwise" and isinstance(before.array, Blockwise)):
+        return ()
+    b = before.array
+    adj = b.adjust_chunks or {}
+    if not adj or any(not isinstance(i, slice) for i in before.index):
+        return ()
+    axes = []
+    for k, lab in enumerate(b.out_ind):
+        if lab in adj:
+            ix = before.index[k] if k < len(before.index) else slice(None)
+            if ix != slice(None) and ix != slice(0, None, None) and ix != slice(0, b.shape[k], 1) and ix != slice(None, None, None):
+                return ()
+            if all(c == 1 for c in b.chunks[k]):
+                axes.append(k)
+    return tuple(axes)
+
+
 def run_program(chk, da, prog, sources, want, rc=None):
     feats = features(prog)
     for o in progs.ops_in(prog):
@@ -89,6 +111,14 @@ def run_program(chk, da, prog, sources, want, rc=None):
                           signature={"class": "rewrite-raises", "rule": rule, "error": err_sig(e), **feats})
             continue
         ok, why = exprs.same(va, vb)
+        if not ok:
+            red = block_indexed_axes(before)
+            if red and np.shape(va) == np.shape(vb):
+                # the node below the slice is a contraction's partial-result Blockwise: along those output axes the INDEX IS A
+                # BLOCK NUMBER (one partial per block), so the entries depend on where the operands' block boundaries fall;
+                # what the expression denotes for its (summing) consumer is the total over these axes
+                ok, why = exprs.same(np.sum(va, axis=red), np.sum(vb, axis=red))
+                chk.count("rule-instance:compared-as-sum-over-block-indexed-axes")
         chk.traces_validated += 1
         if not ok:
             chk.violation(f"rewrite {rule} changed the denoted array ({why})",
@@ -137,7 +167,11 @@ def run(chk: Check):
                  "rule_fn before = Some after by exact structural equality; counts per rule are in rule_instances")
     chk.assumptions = ["the raw expression lowered without simplify is the reference semantics (it is compared with NumPy by C01)",
                        "reifier: an Elemwise operator is identified by (op, dtype, name, kwargs); scalar operands by (type, repr); "
-                       "unmodelled child classes are opaque leaves identified by _name with their shape and chunks"]
+                       "unmodelled child classes are opaque leaves identified by _name with their shape and chunks; ones/zeros/full "
+                       "are identified by (class, dtype, meta, kwargs); where=/out= arrays of an Elemwise are its last two operands",
+                       "oracle arguments of the rule functions are read back from the implementation: the unified layout "
+                       "(unify_chunks_expr) for Elemwise._lower, _choose_rechunk_method for Rechunk._lower, "
+                       "_NUMPY_SLICE_PUSHDOWN_NBYTES_LIMIT for FromArray._accept_slice"]
     chk.run_proofs()
     import c01
     S = slice
@@ -159,6 +193,6 @@ def run(chk: Check):
         run_program(chk, da, prog, sources, want, rc)
     # model correspondence: every captured instance of a modelled rule, plus a directed stream that invokes the
     # implementation's rule hooks on random operands, is reified and compared in Coq with the proven rule functions
-    c02_rules.run_directed(chk, rc, da, progs, 12000 if chk.tier == "thorough" else 720)
+    c02_rules.run_directed(chk, rc, da, progs, 16000 if chk.tier == "thorough" else 1000)
     rc.flush()
     chk.extra["rules_fired"] = {k[5:]: v for k, v in chk.hist.items() if k.startswith("rule:")}
